@@ -158,6 +158,10 @@ def obligations(tier):
     from .common import logdomain_ob, hidden_state_ob
     obs.append(logdomain_ob(prog, "logdomain"))
     obs.append(hidden_state_ob(prog, "purity"))
+    # the case of condition_on_x outside the known finding F10 (square A): decided, so that another defect in the same method is not absorbed by it
+    from .c17 import coherence_square_ob, CLASSES as HETERO
+    for cls in HETERO:
+        obs.append(coherence_square_ob(cls))
     from .c12 import update_ob
     for cls in ("GaussianPDF", "GaussianDiagPDF"):
         ob = update_ob(prog, cls)
@@ -207,7 +211,7 @@ def _run_with_marker(drv, made):
         Interp.construct = orig_construct
 
 
-FLOORS = {"group:invariant": 540, "group:ctor": 31, "group:update": 2}
+FLOORS = {"group:invariant": 540, "group:ctor": 31, "group:update": 2, "group:coherent-square": 4}
 LEVEL = "proof"
 EXPLANATION = ("Every public operation (API table shared with C12) is interpreted with operands that satisfy the representation invariant (declared "
                "inverse pairs / log-determinants); each returned object's cached fields are compared with the values defined by its natural parameters, "
